@@ -346,6 +346,8 @@ MP_FN = {'sin': mpmath.sin, 'cos': mpmath.cos, 'tan': mpmath.tan, 'sec': mpmath.
 
 def call_fn(f, a):
     a = num_of(a)
+    if f is mpmath.acot and abs(a) < mpf(10) ** -9:
+        raise Undef('arccot jumps at 0')
     if mpmath.isinf(a) or mpmath.isnan(a):
         raise Undef('function of inf')
     try:
@@ -807,6 +809,8 @@ def compare(case, obs, replies):
         return 'model reply malformed: %r' % (rep,)
     if rep[0] == 'outside':
         return None
+    if obs['out'] in SYMPY_INTERNAL:
+        return None     # SymPy's own machinery gave up (recursion limit, not implemented, no answer in time): outside the model
     if rep[0] == 'err':
         if obs['out'] in SYMPY_INTERNAL or (obs['out'] != 'ok' and eager_error(obs)):
             return None     # SymPy's numeric evaluation of an earlier sibling raised first: outside the model
